@@ -125,7 +125,10 @@ def presets(ctx):
             # a country whose no-feed round stays just below a threshold other than 100 (the *_after_10_percent_fed schedules)
             ("JPN", dict(scenario="no_resilient_foods", shutoff="continued_after_10_percent_fed", NMONTHS=48)),
             ("TWN", dict(scenario="no_resilient_foods", shutoff="long_delayed_shutoff_after_10_percent_fed", NMONTHS=48)),
-            ("WOR", dict(scale="global", NMONTHS=72))]
+            ("WOR", dict(scale="global", NMONTHS=72)),
+            # a country whose no-feed round clears a threshold below 100 while the feed demand is large enough to eat into the human share
+            # (the clause "round 1 reaches T => the final result stays at or above T" is only exercised there; W11d-1)
+            ("ESP", dict(scenario="no_resilient_foods", shutoff="continued_after_10_percent_fed"))]
     Ts = [None, 0, 10, 50, 100, None, None, None, None, None, None]
     for j, (iso, o) in enumerate(base):
         t = Ts[j % len(Ts)]
